@@ -10,6 +10,8 @@
     3  a GMX v1 market (GLP shares + accrued reward)    — `Demeter.GmxV1.State`, operations `Demeter.GmxV1.step`, `update()` = reward accrual
     4  a Deribit option market (cash + options)         — `Demeter.Deribit.DState`, operations `Demeter.Deribit.step`, `update()` = expiry;
        its `get_market_balance` WRITES a cache (`_balance_cache`): the account-row call itself changes the market (`Ev.row`)
+    5  an Aave v3 market (supplies − debts, five caches) — `Demeter.Aave.St`, operations `Demeter.Aave.step`, `update()` = liquidation,
+       `set_market_status` = `.newBar` (resets the caches), `get_market_balance` = the read `.marketBalance` (fills caches)
   Every market model carries "the" broker wallet as a field of its own state; here there is ONE wallet (`World.wallet`): it is put into a
   market's state before that market's transition runs and taken out of it afterwards.
 
@@ -27,6 +29,7 @@ import Demeter.Uni.Fee
 import Demeter.Squeeth.Views
 import Demeter.GmxV1
 import Demeter.Deribit.Run
+import Demeter.Aave
 namespace Demeter.Core
 
 structure Setup where
@@ -48,6 +51,10 @@ structure Setup where
   derCfg : Deribit.TokenCfg := Deribit.ethCfg                      -- market 4: token configuration; `quote_token` = its token
   derBar : Int → Option Int → Deribit.Bar := fun ts _ => ⟨ts / 60, false, [], 0, false, []⟩   -- what the frames give market 4 at a bar
   derOp : String → Option Deribit.Op := fun _ => none              -- what a label issued on market 4 stands for
+  aaveCx : Aave.ACtx := Aave.ACtx.py                               -- market 5: arithmetic
+  aaveEnv : Option Int → Aave.Env := fun _ => ⟨[], [], [], false⟩  -- market 5: status row, prices and risk table, by source row
+  aaveOp : String → Option Aave.Op := fun _ => none                -- what a label issued on market 5 stands for
+  aaveQuote : String := "USD"                                      -- `AaveV3Market.quote_token` (the `Market` default)
 
 structure World where
   wallet : Wallet
@@ -57,6 +64,8 @@ structure World where
   gmx : GmxV1.State := ⟨0, 0, [], []⟩                      -- market 3 (its `wallet` field: scratch copy, as above)
   genv : GmxV1.Env := ⟨[], [], 0, 0, 0, 0, 0, 0⟩           -- the current status of market 3
   der : Deribit.DState := ⟨0, [], [], [], false, [], none, false, 0, 0, false⟩   -- market 4 (its `wallet` field: scratch copy)
+  aave : Aave.St := ⟨[], [], ⟨true, []⟩, ⟨true, []⟩, ⟨true, []⟩, ⟨true, []⟩, ⟨true, []⟩, [], [], false⟩   -- market 5 (likewise)
+  aenv : Aave.Env := ⟨[], [], [], false⟩                                          -- the current status of market 5
 
 /-- market 0 as its methods see it: with the broker's wallet -/
 def World.uniIn (w : World) : Uni.State := { w.uni with wallet := w.wallet }
@@ -78,6 +87,14 @@ def World.derIn (w : World) : Deribit.DState := { w.der with wallet := w.wallet 
 def derCall (S : Setup) (w : World) (op : Deribit.Op) : World :=
   let r := Deribit.step S.derCx S.derCfg w.derIn op
   { w with wallet := r.2.wallet, der := r.2 }
+
+/-- market 5 as its methods see it -/
+def World.aaveIn (w : World) : Aave.St := { w.aave with wallet := w.wallet }
+
+/-- an operation on market 5 -/
+def aaveCall (S : Setup) (w : World) (op : Aave.Op) : World :=
+  let r := Aave.step S.aaveCx w.aenv w.aaveIn op
+  { w with wallet := r.2.wallet, aave := r.2 }
 
 /-- an operation on market 0 -/
 def uniCall (S : Setup) (w : World) (tag : String) : World :=
@@ -102,6 +119,10 @@ def opCall (S : Setup) (w : World) (m : Nat) (tag : String) : World :=
     match S.derOp tag with
     | none => w
     | some op => derCall S w op
+  else if m = 5 then
+    match S.aaveOp tag with
+    | none => w
+    | some op => aaveCall S w op
   else match S.sqOp tag with
     | none => w
     | some op => sqCall S w op
@@ -121,6 +142,9 @@ def setCall (S : Setup) (w : World) (ts : Int) (m : Nat) (isOpen : Bool) (src : 
     | some _ => { w with genv := S.gmxEnv src }
     | none => w
   else if m = 4 then { w with der := Deribit.setStatus w.der { S.derBar ts src with flagOpen := isOpen } }
+  else if m = 5 then
+    { w with aenv := { S.aaveEnv src with isOpen := isOpen },
+             aave := (Aave.step S.aaveCx { S.aaveEnv src with isOpen := isOpen } w.aave .newBar).2 }
   else
     match src with
     | some _ => { w with env := { S.sqEnv src with uniPrice := w.env.uniPrice, uniOpen := w.env.uniOpen } }
@@ -133,6 +157,7 @@ def updCall (S : Setup) (w : World) (m : Nat) : World :=
   else if m = 3 then gmxCall S w .update                                     -- reward accrual (wallet untouched)
   else if m = 4 then { w with wallet := (Deribit.update S.derCx S.derCfg w.derIn).wallet,
                               der := Deribit.update S.derCx S.derCfg w.derIn }           -- expiry: settlement of due options
+  else if m = 5 then aaveCall S w .update                                    -- liquidation of an unhealthy account
   else w
 
 /-- what a call of the trace does to wallet and markets -/
@@ -142,20 +167,23 @@ def marketsEff (S : Setup) : Ev → World → World
   | .opOk _ _ m tag, w => opCall S w m tag
   | .opRej _ _ m tag false, w => opCall S w m tag      -- the market's own logic raised: the state is what the failing call left behind
   | .opFree _ _ m tag _, w => opCall S w m tag
-  | .row _ _, w => { w with der := (Deribit.getMarketBalance S.derCx S.derCfg w.derIn).2 }   -- the valuation fills market 4's cache
+  | .row _ _, w => { w with der := (Deribit.getMarketBalance S.derCx S.derCfg w.derIn).2,      -- the valuation fills market 4's cache
+                            aave := (Aave.step S.aaveCx w.aenv w.aaveIn (.read .marketBalance)).2 }   -- … and market 5's caches
   | _, w => w                                          -- hook calls, the gate's refusal on a closed market, `uact` (recorded by `update`), rows, notify
 
 /-- a market's `get_market_balance().net_value`; an exception is NOT a value: the theorems carry the guard "the call returns" -/
 def nvOfUni (r : Except Uni.Err Uni.Balance) : Rat := match r with | .ok b => b.netValue | .error _ => 0
 def nvOfSq (r : Except Squeeth.Err Squeeth.Balance) : Rat := match r with | .ok b => b.netValue | .error _ => 0
 def nvOfDer (r : Deribit.Outcome) : Rat := match r with | .ok (.balance (some b)) => b.netValue | _ => 0
+def nvOfAave (r : Aave.Res Aave.Val) : Rat := match r with | .ok (.bal b) => b.netValue | _ => 0
 
 def marketsBalances (S : Setup) (w : World) : List MarketNV :=
   [⟨"uni", S.pool.quoteTok, nvOfUni (Uni.getMarketBalance S.K S.pool w.uniIn)⟩,
    ⟨"squeeth-pool", Gen.sqWethName, Squeeth.uniNetValue S.cx w.env w.sqIn⟩,
    ⟨"squeeth", S.sqQuote, nvOfSq (Squeeth.marketBalance S.cx w.env w.sqIn)⟩,
    ⟨"gmx", S.gmxQuote, GmxV1.netValue S.cx w.genv w.gmxIn⟩,
-   ⟨"deribit", S.derCfg.token, nvOfDer (Deribit.getMarketBalance S.derCx S.derCfg w.derIn).1⟩]
+   ⟨"deribit", S.derCfg.token, nvOfDer (Deribit.getMarketBalance S.derCx S.derCfg w.derIn).1⟩,
+   ⟨"aave", S.aaveQuote, nvOfAave (Aave.step S.aaveCx w.aenv w.aaveIn (.read .marketBalance)).1⟩]
 
 /-- the concrete interpretation -/
 def marketsValuation (S : Setup) : Valuation World :=
@@ -175,6 +203,8 @@ def callOk (S : Setup) (w : World) (m : Nat) (tag : String) : Option Bool :=
     (S.gmxOp tag).map fun op => match (GmxV1.step S.cx w.genv w.gmxIn op).1 with | .ok _ => true | .error _ => false
   else if m = 4 then
     (S.derOp tag).map fun op => match (Deribit.step S.derCx S.derCfg w.derIn op).1 with | .ok _ => true | .error _ => false
+  else if m = 5 then
+    (S.aaveOp tag).map fun op => match (Aave.step S.aaveCx w.aenv w.aaveIn op).1 with | .ok _ => true | .error _ => false
   else
     (S.sqOp tag).map fun op => (Squeeth.step S.cx w.env w.sqIn op).err.isNone
 
